@@ -225,9 +225,11 @@ def f32_representable(x):
 
 
 # -------------------------------------------------------------------------- conformance
-def conforms(n, d, logical=True):
-    """Does Python datum d conform to node n under the documented Python mapping
-    (plain values only: no tuple / '-type' hints)?"""
+def conforms(n, d, logical=True, strict_keys=False):
+    """Does Python datum d conform to node n under the documented Python mapping?
+    strict_keys=False mirrors what a validating writer accepts (extra record keys are ignored);
+    strict_keys=True additionally demands that a record datum has no keys the record lacks -- the
+    notion used when THIS module chooses a union branch to encode (it must not drop data)."""
     n = deref(n)
     k = n.k
     if logical and n.logical:
@@ -270,26 +272,28 @@ def conforms(n, d, logical=True):
     if k == "array":
         # documented mapping: any non-string sequence (bytes is a sequence of ints)
         return (isinstance(d, (_abc.Sequence, _array.array, bytearray)) and not isinstance(d, str)
-                and all(conforms(n.items, x) for x in d))
+                and all(conforms(n.items, x, logical, strict_keys) for x in d))
     if k == "map":
         return isinstance(d, _abc.Mapping) and all(isinstance(key, str) for key in d) and \
-            all(conforms(n.values, v) for v in d.values())
+            all(conforms(n.values, v, logical, strict_keys) for v in d.values())
     if k == "union":
         if isinstance(d, tuple) and len(d) == 2 and isinstance(d[0], str):
-            return any(branch_name(b) == d[0] and conforms(b, d[1]) for b in n.branches)
-        return any(conforms(b, d) for b in n.branches)
+            return any(branch_name(b) == d[0] and conforms(b, d[1], logical, strict_keys) for b in n.branches)
+        return any(conforms(b, d, logical, strict_keys) for b in n.branches)
     if k == "record":
         if not isinstance(d, _abc.Mapping):
             return False
         if "-type" in d and d["-type"] != n.name:
             return False
+        if strict_keys and set(d) - {f.name for f in n.fields} - {"-type"}:
+            return False
         for f in n.fields:
             if f.name in d:
-                if not conforms(f.type, d[f.name]):
+                if not conforms(f.type, d[f.name], logical, strict_keys):
                     return False
             elif not f.has_default:
                 # an absent field is acceptable only when it accepts null
-                if not conforms(f.type, None):
+                if not conforms(f.type, None, logical, strict_keys):
                     return False
         return True
     raise RefError(f"conforms: {k}")
@@ -398,7 +402,7 @@ def _enc(n, d, out, sites, lay, depth):
             # a foreign writer that does not lose precision: prefer 'double' for a Python float
             order.sort(key=lambda ib: 0 if deref(ib[1]).k == "double" else 1)
         for i, b in order:
-            if conforms(b, d, logical=False):
+            if conforms(b, d, logical=False, strict_keys=True):
                 v = zz(i)
                 sites.append({"off": len(out), "len": len(v), "kind": "union", "n": len(n.branches), "depth": depth})
                 out += v
